@@ -689,7 +689,7 @@ class Fn(object):
                 elif k in CALL_KINDS:
                     ov = n.get('ov') or []
                     for a, pt in zip(self.args(i), ov):
-                        if pt.endswith('&') and not pt.startswith('const '):
+                        if _mutable_ref(pt):
                             r = self.ref_of(a)
                             if r and r.startswith(('v:', 'p:')):
                                 self._defs[r].append((i, None))
@@ -1035,7 +1035,7 @@ class Fn(object):
             return n['ref'], neg
         return None
 
-    def reachable_blocks_flags(self, gates, preds, start=None):
+    def reachable_blocks_flags(self, gates, preds, start=None, cut_blocks=()):
         """like reachable_blocks(cut_edges=gates), with the state extended by, for every re-assigned bool local, the
         definition that reaches and the value a test has established.  An edge that tests such a flag is infeasible when it
         contradicts the known value, and is a gate when the reaching definition's expression, taken with the tested value,
@@ -1150,11 +1150,13 @@ class Fn(object):
                         continue
                     fl2 = dict(fl)
                     fl2[ref] = (d, val)
+                if s2 in cut_blocks:
+                    continue
                 nxt = (s2, stag, frozenset(fl2.items()), frozenset(mem2.items()))
                 if nxt not in seen:
                     stack.append(nxt)
         if budget <= 0:
-            return self.reachable_blocks(start, cut_edges=gates)
+            return self.reachable_blocks(start, cut_edges=gates, cut_blocks=cut_blocks)
         return seenb
 
     def abnormal_blocks(self):
@@ -1174,6 +1176,19 @@ class Fn(object):
     def ret_value(self, r):
         n = self.nodes[r]
         return n['ch'][0] if n['ch'] else None
+
+
+def _mutable_ref(pt):
+    """`T &` through which the callee can modify the argument: `const char *&` is one (reference to a pointer to const), `const T &` is not"""
+    pt = (pt or '').strip()
+    if not pt.endswith('&') or pt.endswith('&&'):
+        return False
+    t = pt[:-1].strip()
+    if t.endswith('*'):
+        return True
+    if t.endswith('const'):
+        return False
+    return not t.startswith('const ')
 
 
 class GateList(list):
